@@ -58,7 +58,10 @@ type C18Sc struct {
 	// FileConsole: the configured writer is a real *os.File (like the default os.Stdout), read back
 	// through the file system when the console is inspected
 	FileConsole bool `json:"file_console,omitempty"`
-	Second []C18Item `json:"second,omitempty"`
+	// Defaults: the host calls neither SetStdout nor SetWarnLogger (as cmd/zexdoc does): the machine is
+	// created while os.Stdout / os.Stderr are scratch files, which stay in place until the run is over
+	Defaults bool      `json:"defaults,omitempty"`
+	Second   []C18Item `json:"second,omitempty"`
 	// Concurrent: several independent machines (each its own Memory, IO, CPU, console) run at the same
 	// time on their own goroutines (side-car: free threads; also in the -race binary).
 	Concurrent []C18Sc `json:"concurrent,omitempty"`
@@ -91,6 +94,7 @@ func (c18) Gen(r *world.Rng, tier string, n int) interface{} {
 func c18Plain(r *world.Rng, tier string) *C18Sc {
 	s := c18GenOne(r, tier, 0)
 	s.WriteFail, s.Events, s.CancelAt, s.BPAfter, s.TightStack, s.PreWriter = nil, nil, nil, false, "", ""
+	s.Defaults = false // (process-wide streams: not for machines that run side by side)
 	if s.BadFnFinal {
 		s.BadFnFinal = false
 		s.Items = s.Items[:len(s.Items)-1]
@@ -105,6 +109,14 @@ func c18GenOne(r *world.Rng, tier string, n int) *C18Sc {
 	regs := world.RandRegs(r)
 	regs.PC = tinycpm.Start
 	regs.SP = uint16(r.Range(0xf000, 0xfd00))
+	switch r.Intn(12) {
+	case 0, 1:
+		regs.SP = 0xfe06 // what the usual `LD SP,(6)` gives: the stack grows down from the BDOS entry
+	case 2:
+		regs.SP = 0x0000 // the reset value: first push at 0xFFFF
+	case 3:
+		regs.SP = uint16(r.Range(0xfd00, 0xfe06))
+	}
 	regs.IM = 1
 	regs.IFF1, regs.IFF2 = false, false
 	sc.SP = regs.SP
@@ -221,6 +233,9 @@ func c18GenOne(r *world.Rng, tier string, n int) *C18Sc {
 	sc.ByteWriter = r.Chance(1, 4)
 	if len(sc.WriteFail) == 0 && !sc.ByteWriter && r.Chance(1, 12) {
 		sc.FileConsole = true
+	}
+	if len(sc.WriteFail) == 0 && !sc.ByteWriter && !sc.FileConsole && sc.PreWriter == "" && len(sc.CancelAt) == 0 && r.Chance(1, 10) {
+		sc.Defaults = true
 	}
 	if len(sc.Events) == 0 && r.Chance(1, 4) {
 		// the stack has exactly the one slot the CALL needs, right behind code or a string
@@ -391,6 +406,25 @@ func c18Run(sc *C18Sc, env *Env, bubble bool) (res *Violation) {
 		}
 	}()
 	prog, rets, expect, warns, strs := c18Assemble(sc)
+	var confile, errfile *os.File
+	if sc.Defaults {
+		fo, err1 := os.CreateTemp(".", "stdout-*.bin")
+		fe, err2 := os.CreateTemp(".", "stderr-*.txt")
+		if err1 != nil || err2 != nil {
+			return viol("harness", "cannot create the stand-ins for the standard streams: %v %v", err1, err2)
+		}
+		oldO, oldE := os.Stdout, os.Stderr
+		os.Stdout, os.Stderr = fo, fe
+		confile, errfile = fo, fe
+		env.Fire("machine-with-default-console-and-logger")
+		defer func() {
+			os.Stdout, os.Stderr = oldO, oldE
+			fo.Close()
+			fe.Close()
+			os.Remove(fo.Name())
+			os.Remove(fe.Name())
+		}()
+	}
 	mem, io := tinycpm.New()
 	for i, b := range prog {
 		mem.Set(tinycpm.Start+uint16(i), b)
@@ -421,13 +455,15 @@ func c18Run(sc *C18Sc, env *Env, bubble bool) (res *Violation) {
 	case "plain":
 		io.SetStdout(&prePlain)
 	}
-	var confile *os.File
-	if sc.FileConsole {
+	if sc.Defaults {
+		// nothing is configured
+	} else if sc.FileConsole {
 		f, err := os.CreateTemp(".", "console-*.bin")
 		if err != nil {
 			return viol("harness", "cannot create the console file: %v", err)
 		}
 		confile = f
+		env.Fire("console-is-a-real-file")
 		defer func() {
 			f.Close()
 			os.Remove(f.Name())
@@ -462,7 +498,9 @@ func c18Run(sc *C18Sc, env *Env, bubble bool) (res *Violation) {
 			}
 		}
 	}
-	io.SetWarnLogger(log.New(&warnBuf, "", 0))
+	if !sc.Defaults {
+		io.SetWarnLogger(log.New(&warnBuf, "", 0))
+	}
 
 	var tick uint64
 	var logAcc []world.Acc
@@ -675,6 +713,12 @@ func c18Run(sc *C18Sc, env *Env, bubble bool) (res *Violation) {
 	}
 	// warnings: one or more per offending port access, none otherwise, and no console byte from them
 	lines := strings.Count(warnBuf.String(), "\n")
+	if errfile != nil {
+		b, _ := os.ReadFile(errfile.Name())
+		// (where a machine nobody configured sends its warnings is not specified: the process's standard
+		// error stream as it was when the machine was made, or package log's default logger)
+		lines = strings.Count(string(b), "\n") + strings.Count(env.LogBuf.String(), "\n")
+	}
 	// (that nothing else ever warns is not part of the statement - e.g. logging a failed console write
 	// would be a reasonable thing to do - so only the lower bound is demanded)
 	if lines < warns {
